@@ -38,9 +38,27 @@ func (o *Once) Do(f func()) {
 type (
 	Pool      = sync.Pool
 	WaitGroup = sync.WaitGroup
-	Map       = sync.Map
 	Cond      = sync.Cond
 	Locker    = sync.Locker
 )
 
 func NewCond(l Locker) *Cond { return sync.NewCond(l) }
+
+// Map is sync.Map whose operations are scheduling points (check-then-act races on it become explorable).
+type Map struct{ m sync.Map }
+
+func (m *Map) Load(key any) (any, bool) { verifrt.Yield("sync.Map.Load", false); return m.m.Load(key) }
+func (m *Map) Store(key, value any)     { verifrt.Yield("sync.Map.Store", true); m.m.Store(key, value) }
+func (m *Map) LoadOrStore(key, value any) (any, bool) {
+	verifrt.Yield("sync.Map.LoadOrStore", true)
+	return m.m.LoadOrStore(key, value)
+}
+func (m *Map) LoadAndDelete(key any) (any, bool) {
+	verifrt.Yield("sync.Map.LoadAndDelete", true)
+	return m.m.LoadAndDelete(key)
+}
+func (m *Map) Delete(key any) { verifrt.Yield("sync.Map.Delete", true); m.m.Delete(key) }
+func (m *Map) Range(f func(key, value any) bool) {
+	verifrt.Yield("sync.Map.Range", false)
+	m.m.Range(f)
+}
